@@ -2534,6 +2534,14 @@ func (pc *PeerConnection) CreateDataChannel(label string, options *DataChannelIn
 	pc.sctpTransport.dataChannelsRequested++
 	pc.sctpTransport.lock.Unlock()
 
+	// Close marks the connection closed before it closes the channels in the list:
+	// if it ran in between, this channel was not in the list yet.
+	if pc.isClosed.Load() {
+		dataChannel.setReadyState(DataChannelStateClosed)
+
+		return nil, &rtcerr.InvalidStateError{Err: ErrConnectionClosed}
+	}
+
 	// If SCTP already connected open all the channels
 	if pc.sctpTransport.State() == SCTPTransportStateConnected {
 		if err = dataChannel.open(pc.sctpTransport); err != nil {
